@@ -2,7 +2,9 @@
 from __future__ import annotations
 
 import collections
+import ast
 import random
+import re
 
 import fiddle as fdl
 from fiddle._src import config as config_lib
@@ -30,6 +32,50 @@ def g_path(enc, path) -> str:
     else:
       raise TypeError(pe)
   return g_list(out)
+
+
+def parse_printed_path(root, text, want_value=False):
+  """The path printed in the message as daglish elements, decided by walking the configuration
+  (written from the printed grammar: .name, [index], [key-literal]).  None when it cannot be read."""
+  out, cur, pos = [], root, 0
+  while pos < len(text):
+    m = re.compile(r"\.([A-Za-z_]\w*)").match(text, pos)
+    if m:
+      name = m.group(1)
+      out.append(daglish.Attr(name))
+      try:
+        cur = cur.__arguments__[name] if isinstance(cur, config_lib.Buildable) else getattr(cur, name)
+      except (KeyError, AttributeError):
+        return None
+      pos = m.end()
+      continue
+    if text[pos] != "[":
+      return None
+    # the longest literal first is wrong for nested brackets: try every closing bracket in turn
+    lit = None
+    for end in [i for i in range(pos + 1, len(text)) if text[i] == "]"]:
+      try:
+        lit = ast.literal_eval(text[pos + 1:end])
+      except (ValueError, SyntaxError):
+        continue
+      break
+    else:
+      return None
+    try:
+      if isinstance(cur, dict):
+        out.append(daglish.Key(lit))
+        cur = cur[lit]
+      elif isinstance(cur, config_lib.Buildable):
+        out.append(daglish.Index(lit))
+        cur = cur.__arguments__[lit]
+      else:
+        out.append(daglish.Index(lit))
+        cur = cur[lit]
+    except (KeyError, IndexError, TypeError):
+      return None
+    pos = end + 1
+  return (out, cur) if want_value else out
+
 
 
 def g_vps(enc, vps) -> str:
@@ -386,6 +432,13 @@ def run(tier: str, seed: int) -> Result:
   n = 400 if tier == "quick" else 12000
   for i in range(n):
     root, _ = l2.gen_dag(rng, rng.randint(1, 12) if rng.random() < 0.85 else rng.randint(12, 30))
+    if rng.random() < 0.2:
+      # ONE nested tuple of constants (an object Python may intern: it has no identity for Fiddle, however
+      # deeply the constants are nested) reachable by several paths, next to a tuple that holds a mutable object
+      t = (((1, 2), "x"), 3, (4, (5, ())))
+      root = rng.choice([lambda: [t, root, t], lambda: {"a": t, "b": [t], "c": root},
+                         lambda: fdl.Config(l2.fd, x=t, y=(t, [0]), z=root)])()
+      res.count("planted-nested-constant-tuple")
     one_case(rng, res, intern, stream, root, f"dag#{i}")
   for i in range(60 if tier == "quick" else 1500):
     cyclic_case(rng, res, cyc, intern, f"cyc#{i}")
